@@ -653,6 +653,18 @@ func (env *Env) call(e *SExpr) TV {
 			}
 		}
 		return TV{Sc{env.ex.ctx.Const("zero_"+name, SInt)}, nil}
+	case "nothingAssigned":
+		// every heap array is what it was in the old state (strongest frame)
+		if env.cur.epoch != env.old.epoch || len(env.cur.havockedPrefixes) != len(env.old.havockedPrefixes) {
+			return boolTV(tFalse)
+		}
+		var conj []Term
+		for _, k := range sortedKeys(env.cur.heaps) {
+			c := env.cur.heaps[k]
+			o := env.old.heap(k, c.Sort)
+			conj = append(conj, tEq(c, o))
+		}
+		return boolTV(tAnd(conj...))
 	case "strlen":
 		return mathInt(env.ex.strLen(env.sinkState(), env.evalInt(e.Args[0])))
 	}
